@@ -38,6 +38,11 @@ def build_sig_class(deco, params, H):
         k = H.posonly if H.posonly <= len(params) else len(params)
         parts = ["self"] + list(params)
         plist = ", ".join(parts[:k + 1] + ["/"] + parts[k + 1:])
+    if H.defaults and params:
+        # parameters may carry default values of their own (never used: the machine always supplies the value)
+        dv = dict(tm="-5.0", state_tm="-7.0", initial_call="None")
+        k = len(params) - min(H.defaults, len(params))
+        plist = ", ".join(["self"] + list(params[:k]) + [f"{p}={dv[p]}" for p in params[k:]])
     kw = ", ".join(f"{p}={p}" for p in params)
     src = "class M(Base):\n"
     if deco == "state":
@@ -60,6 +65,7 @@ def sig_path(c, job):
     H = SigRec()
     H.clock = clock
     H.posonly = job.get("posonly", 0)
+    H.defaults = job.get("defaults", 0)
     M = build_sig_class(deco, params, H)
     sm = M()
     smc._NTID[0] += 1
@@ -78,7 +84,7 @@ def sig_path(c, job):
             sm.execute()
         except Exception as e:
             c.prove("C03.sig state-function-callable-with-its-own-signature", False,
-                    info=dict(deco=deco, params=list(params), posonly=H.posonly, exc=repr(e)[:120]))
+                    info=dict(deco=deco, params=list(params), posonly=H.posonly, defaults=H.defaults, exc=repr(e)[:120]))
             return
         nows.append(clock.reads[n])
     got = [kw for name, kw, t in H.calls if name == "x"]
@@ -105,7 +111,7 @@ def sig_path(c, job):
                 continue  # tm is unspecified for a default state outside an engagement
             c.reach("sig-param-" + p)
             c.prove(f"C03.sig {p}", s_eq(got[i][p], exp[i][p]),
-                    info=dict(deco=deco, params=list(params), iteration=i, got=got[i][p]))
+                    info=dict(deco=deco, params=list(params), defaults=H.defaults, iteration=i, got=got[i][p]))
         c.prove("C03.sig only-declared", set(got[i]) == set(params))
 
 
@@ -124,8 +130,10 @@ class C03(SMSpec):
         sig = [dict(kind="sig", deco=d, params=list(p)) for d in ("state", "timed", "default") for p in SUBSETS]
         sig += [dict(kind="sig", deco=d, params=list(p), posonly=k) for d in ("state", "timed", "default")
                 for p in SUBSETS if len(p) >= 2 for k in (1, len(p))]
+        sig += [dict(kind="sig", deco=d, params=list(p), defaults=k) for d in ("state", "timed", "default")
+                for p in SUBSETS if len(p) >= 1 for k in sorted({1, len(p)})]
         if tier == "quick":
-            hist = ([mkjob(s, 3, 2) for s in ("S1", "S3", "S4", "S5")] + [mkjob(s, 5, 0, ext=False) for s in ("S2", "S6")]
+            hist = ([mkjob(s, 3, 2) for s in ("S1", "S3", "S4", "S5")] + [mkjob("S1", 3, 0, ext_per_iter=2, variant=1)] + [mkjob(s, 5, 0, ext=False) for s in ("S2", "S6")]
                     + [mkjob("S8", 4, 1, variant=1)] + [self.twinjob("S1", 3, 0, variant=2), self.twinjob("S2", 4, 0, variant=1)]
                     + [mkjob("S6", 5, 0, ext=False, rewrite=True, variant=3), mkjob("S2", 4, 0, ext=False, rewrite=True, variant=2)])
         else:
@@ -139,7 +147,7 @@ class C03(SMSpec):
 
     def bounds(self, tier):
         js = [j for j in self.jobs(tier) if j["kind"] == "hist"]
-        return dict(signature_programs="16 ordered parameter subsets x {state, timed_state, default_state}, 3 iterations each, symbolic clock and duration",
+        return dict(signature_programs="16 ordered parameter subsets x {state, timed_state, default_state} (plain, with positional-only markers, with default values), 3 iterations each, symbolic clock and duration",
                     history=[dict(shape=j["shape"], **j["cfg"]) for j in js])
 
     def reach_required(self, tier):
